@@ -62,7 +62,7 @@ theorem formationCore_struct {ps : List Proto} {wrap : Option Int} {cs : List Ca
               · cases h
               · rename_i singles hS
                 injection h with h; subst h
-                have hun0 : (sortProtos ps).Nodup := nodup_sortBy _ hn
+                have hun0 : (sortProtos ps).Nodup := nodup_sortProtos hn
                 have hps0 : ∀ p, p ∈ sortProtos ps → p ∈ ps := fun p hp => mem_sortProtos.1 hp
                 obtain ⟨hH1, hH2, hH3⟩ := findHybrids_wf hH hun0
                 have hr1 : Reach wrap ps t1 := reach_buildCandidates hB1 (by decide)
@@ -85,7 +85,7 @@ theorem formationCore_struct {ps : List Proto} {wrap : Option Int} {cs : List Ca
                     rcases (hN g hg).2.2 p hp with h1 | ⟨c, hc, hpc⟩
                     · exact hps0 p (hH3 p (hI3 p h1))
                     · exact (ht2.1 c (mem_sortCands.1 hc)).fromInput p hpc⟩) hr2
-                exact ⟨t3, _, singles, hr3, nodup_dedup _, hS, rfl⟩
+                exact ⟨t3, _, singles, hr3, nodup_sortProtos (nodup_dedup _), hS, rfl⟩
 
 /-! ### keys of the table -/
 
@@ -230,7 +230,9 @@ theorem buildOne_lin {ps : List Proto} (hlin : Linear ps) {kind : Kind} {t t' : 
           · exact ht.2 e e1
       · rename_i ex hget
         split at h
-        · injection h with h; subst h; exact ht
+        · split at h
+          · cases h
+          injection h with h; subst h; exact ht
         · split at h
           · cases h
           · rename_i repl hrepl
@@ -351,8 +353,8 @@ theorem formation_noDuplicates_linear {ps : List Proto} {cs : List Cand} (hn : p
   subst e
   have hwf := reach_wf hr
   have hlinT := reach_lin hlin hr
-  refine noDuplicates_perm (perm_sortBy candLt _).symm ?_
-  refine noDuplicates_perm (List.Perm.append_right singles (perm_sortBy candLt t3.values).symm) ?_
+  refine noDuplicates_perm (perm_sortCands _).symm ?_
+  refine noDuplicates_perm (List.Perm.append_right singles (perm_sortCands t3.values).symm) ?_
   rw [noDuplicates_iff, List.pairwise_append]
   refine ⟨?_, ?_, ?_⟩
   · -- table values: distinct keys
